@@ -1134,6 +1134,17 @@ impl Exec {
             // a refusal was swallowed (only the size-hint reservation may ignore one)
             self.fail(&["C05"], format!("`{opline}` returned {} although a request was refused", out.fmt()));
         }
+        // C05/C06: an all-or-nothing operation that reports a failure leaves its target exactly as
+        // it was: same storage, same capacity, same pointer (not only the same text)
+        if out.is_alloc_failure()
+            && matches!(base, "reserve" | "shrink_to" | "shrink_to_fit" | "push" | "push_str" | "insert" | "insert_str" | "remove" | "retain" | "add_assign")
+        {
+            if let (Some(b), Some(a)) = (&b_t, &a_t) {
+                if b.kind != a.kind || b.cap != a.cap || b.ptr != a.ptr || b.len != a.len || b.addr != a.addr {
+                    self.fail(&["C05", "C06"], format!("`{opline}` failed ({}) but changed its target: {} -> {}", out.fmt(), b.fmt(0), a.fmt(0)));
+                }
+            }
+        }
         if let Out::PanicOther(m) = out {
             self.fail(&["C01", "C06"], format!("`{opline}` panicked with an unexpected message: {m}"));
         }
